@@ -48,6 +48,26 @@ let pep_fields (v : pep) : string =
   Printf.sprintf "%s %s %s %s %s %s %s %s %s %s" (field_of_str (pep_print v)) (dec_of_n v.p_epoch) rel pl (optn_field v.p_pre_num)
     (if v.p_post_label then "1" else "0") (optn_field v.p_post_num) (if v.p_dev_label then "1" else "0") (optn_field v.p_dev_num) local
 
+let preset_of_name (n : string) : preset =
+  let fam, rest =
+    if String.length n >= 8 && String.sub n 0 8 = "standard" then (Standard, String.sub n 8 (String.length n - 8))
+    else if String.length n >= 6 && String.sub n 0 6 = "calver" then (Calver, String.sub n 6 (String.length n - 6))
+    else failwith ("preset " ^ n)
+  in
+  match rest with
+  | "" -> Smart fam
+  | "-no-context" -> SmartNoContext fam
+  | "-context" -> SmartContext fam
+  | "-base" -> Fixed (fam, TBase, false)
+  | "-base-prerelease" -> Fixed (fam, TPre, false)
+  | "-base-prerelease-post" -> Fixed (fam, TPrePost, false)
+  | "-base-prerelease-post-dev" -> Fixed (fam, TPrePostDev, false)
+  | "-base-context" -> Fixed (fam, TBase, true)
+  | "-base-prerelease-context" -> Fixed (fam, TPre, true)
+  | "-base-prerelease-post-context" -> Fixed (fam, TPrePost, true)
+  | "-base-prerelease-post-dev-context" -> Fixed (fam, TPrePostDev, true)
+  | _ -> failwith ("preset " ^ n)
+
 let check_text (name : string) (s : n list) (printed : n list) (normalized : bool) : n list =
   cps_of_ascii "Version: " @ s @ [ n_of_int 10; n_of_int 0x2713 ] @ cps_of_ascii (" Valid " ^ name ^ " format")
   @ if normalized then cps_of_ascii " (normalized: " @ printed @ cps_of_ascii ")" else []
@@ -141,6 +161,49 @@ let dispatch (req : string list) (impl : string list) : string * string =
           | _ -> "BAD:max-not-ok"
         in
         ("OK " ^ t, verdict)
+    end
+  | ("REN" | "RENP") :: fmt :: _ ->
+    let z =
+      if List.hd req = "REN" then Zenc.zerv { Zenc.f = Array.of_list req; Zenc.i = 2 }
+      else begin
+        let c = { Zenc.f = Array.of_list req; Zenc.i = 3 } in
+        let vs = Zenc.vars c in
+        let name = Wire.bytes_of_hexfield (List.nth req 2) |> List.map Char.chr |> List.to_seq |> String.of_seq in
+        { z_schema = schema_with_zerv (preset_of_name name) vs; z_vars = vs }
+      end
+    in
+    if not (schema_validate z.z_schema) then ("INVALID", if impl = [ "INVALID" ] then "OK" else "BAD:schema-validation")
+    else begin
+      match fmt with
+      | "semver" ->
+        let v = semver_of_zerv z in
+        let printed = semver_print v in
+        (* oracle: the rendering is a SemVer-grammar string that zerv's own parser maps back to the same printed form *)
+        let verdict =
+          match impl with
+          | "OK" :: p :: _ ->
+            let ps = str_of_field p in
+            if not (rx_accepts semver_spec (sv_atoms ps)) then "BAD:not-semver-grammar"
+            else (match semver_parse ps with Some v2 when str_eqb (semver_print v2) ps -> "OK" | _ -> "BAD:own-parser-rejects-or-changes")
+          | _ -> "BAD:not-ok"
+        in
+        ignore printed;
+        ("OK " ^ semver_fields v, verdict)
+      | "pep440" -> (
+        match pep_of_zerv z with
+        | None -> ("PANIC", if (match impl with "PANIC" :: _ -> true | _ -> false) then "BAD:panic" else "BAD:model-panics")
+        | Some v ->
+          let verdict =
+            match impl with
+            | "OK" :: p :: _ ->
+              let ps = str_of_field p in
+              if not (rx_accepts pep440_spec (pep_atoms ps)) then "BAD:not-pep440-grammar"
+              else (match pep_parse ps with Some v2 when str_eqb (pep_print v2) ps -> "OK" | _ -> "BAD:not-normal-form")
+            | "PANIC" :: _ -> "BAD:panic"
+            | _ -> "BAD:not-ok"
+          in
+          ("OK " ^ pep_fields v, verdict))
+      | o -> failwith ("fmt " ^ o)
     end
   | [ "TS"; p; t ] ->
     let reply =
